@@ -1,10 +1,10 @@
 #!/venv/bin/python
-"""Translator (code): the scalar / planar predicate routines of the Fortran implementation, re-read from
-/repo's *current working tree* (`src/fortran/helpers.f90`, `src/fortran/curve_intersection.f90`; root from
-env BEZIER_REPO), are translated statement by statement into Lean definitions
+"""Translator (code): the scalar / planar predicate routines and the numeric kernels of the Fortran implementation, re-read
+from /repo's *current working tree* (`src/fortran/helpers.f90`, `curve_intersection.f90`, `curve.f90`, `triangle.f90`; root
+from env BEZIER_REPO), are translated statement by statement into Lean definitions
 (lean/BezierVerif/Generated/SrcF90.lean, namespace `BezierVerif.Generated.SrcF90`).  The kernel then
-re-proves (lean/BezierVerif/Tables/SrcF90.lean) that each generated definition equals the hand-written model
-definition (Model/Helpers.lean, Model/Solve2x2.lean) on all inputs.  A semantic edit of the source changes the
+re-proves (lean/BezierVerif/Tables/SrcF90.lean, Tables/SrcF90Kernels.lean) that each generated definition equals the
+hand-written model definition (Model/Helpers.lean, Model/Solve2x2.lean, Model/Curve.lean, Model/Triangle.lean) on all inputs.  A semantic edit of the source changes the
 generated definition and breaks the theorem; an edit the translator does not understand removes the
 definition (and prints `EXTRACT-PROBLEM srcf90: <routine>: <what>`), which breaks the theorem as well.
 
@@ -57,6 +57,32 @@ TYPING DISCIPLINE (fixed)
   array extents                        -> every extent is assumed >= 1 (a zero-size array is outside the translated
                                           semantics: `minval` would be `HUGE`, `polygon(:, n)` out of bounds)
 
+NUMERIC KERNELS (curve.f90, triangle.f90; Tables/SrcF90Kernels.lean) - additional rules, selected per routine in ROUTINES
+  UNIFORM AXES  `{"reduce": ["dimension_", "num_vals"]}`: an axis declared with such an integer dummy extent is uniform if every
+                reference has `:` there or the index of an enclosing `forall (v = 1:<extent>)`, and the extent occurs nowhere
+                else (checked; otherwise EXTRACT-PROBLEM).  The routine then acts identically and independently on every
+                index of the axis and the generated definition is its action on ONE index: the axis is removed from the
+                declarations and references, the `forall` over it is replaced by its body.  `{"unit": True}` drops axes of
+                literal extent 1 (`hodograph(dimension_, 1)`, `[s]`).  This is the granularity of the model (row-wise).
+  LIFTED CALL   a caller that keeps an axis (`nodes(dimension_, n)`) calls a routine translated for one index of it: the call
+                is a map over the rows, `List.map (fun nodes_ => evaluate_multi nodes_ s) nodes` (one output, carrying the axis)
+  forall        `forall (i = lo:hi) a(idx(i)) = rhs(i)` on a rank-1 array: every right-hand side reads the OLD array;
+                `List.map (fun i => rhs) (List.range' 1 n)` when the whole array is defined, else a fold of `List.set`
+  rank-1 arrays `v(lo:hi)` ↦ `secRow v lo hi`, `v(hi:lo:-1)` its reverse, `v(lo:hi) = w` ↦ `setSec v lo hi w`, `v = scalar` ↦
+                `List.replicate <declared extent> scalar`, `v(i) = x` ↦ `List.set v (i-1) x` (an unassigned array is
+                `List.replicate <extent> undef`), `c * v`, `v * w`, `v ± w`; `m(:, lo:hi) = w` on rank 2; `p * c` on `v(2)`
+  loops         descending `do i = hi, lo, -1` (fold over the reversed range), lower bound 0, nested loops; inside a loop an
+                `if` construct without `return` is `let (modified) := if c then .. else ..` (no duplication of the rest)
+  integers      subscripts / bounds may contain `a - b` with non-literal `b` when the bounds of the do variables
+                (`lo <= i <= hi`) and extents (>= 1) show the result is >= 0 (affine forms); integer scalar VARIABLES
+                (`index_`, `degree`) are Int-valued; a subscript containing one is `Int.toNat (e - 1)`, a bound / trip count
+                `Int.toNat e`; integer -> real as `((e : Nat) : K)` when exact as a natural number, else `ofInt e`
+  `x ** n`      with the literals n = 2, 3, 4: the repeated product
+  explicit shape an actual extent that is not textually the extent of the actual array: the callee sees the first `extent`
+                elements (`List.take`)
+  OPAQUE        `{"opaque": True}`: only the interface of the routine is read (declared limitation, no definition); its
+                callers take it as an explicit function argument `<name>_ext`
+
 Deterministic; writes the file only when its content changes; exit status 0 also when routines are not translatable.
 Usage: translate_f90.py [--out PATH] [--print]
 """
@@ -86,7 +112,29 @@ ROUTINES = [
     ("curve_intersection", "line_line_collide"),
     ("curve_intersection", "bbox_line_intersect"),
     ("curve_intersection", "linearization_error"),
+    # numeric kernels of curve.f90: every routine acts identically on each row (`dimension_`) and on each parameter
+    # value (`num_vals`); the translation is the action on one row / one value (UNIFORM AXES, see `reduce_axes`)
+    ("curve", "evaluate_curve_vs", {"reduce": ["dimension_", "num_vals"]}),
+    ("curve", "evaluate_curve_de_casteljau", {"reduce": ["dimension_", "num_vals"]}),
+    ("curve", "evaluate_curve_barycentric", {"reduce": ["dimension_", "num_vals"]}),
+    ("curve", "evaluate_multi", {"reduce": ["dimension_", "num_vals"]}),
+    ("curve", "evaluate_hodograph", {"reduce": ["dimension_"], "unit": True}),
+    ("curve", "elevate_nodes", {"reduce": ["dimension_"]}),
+    ("curve", "subdivide_nodes_generic", {"reduce": ["dimension_"]}),
+    ("curve", "subdivide_nodes", {"reduce": ["dimension_"]}),
+    ("curve", "specialize_curve_generic", {"reduce": ["dimension_"], "opaque": True}),
+    ("curve", "specialize_curve_quadratic", {"reduce": ["dimension_"]}),
+    ("curve", "specialize_curve", {"reduce": ["dimension_"]}),
+    ("curve", "newton_refine", {"unit": True}),
+    ("curve", "get_curvature", {"unit": True}),
+    # triangle.f90
+    ("triangle", "de_casteljau_one_round", {"reduce": ["dimension_"]}),
+    ("triangle", "evaluate_barycentric_multi", {"reduce": ["dimension_", "num_vals"]}),
+    ("triangle", "evaluate_barycentric", {"reduce": ["dimension_"], "unit": True}),
+    ("triangle", "evaluate_cartesian_multi", {"reduce": ["dimension_", "num_vals"]}),
 ]
+
+MODULES = ("helpers", "curve_intersection", "curve", "triangle")
 
 # integer enum families: Fortran prefix -> (Lean inductive, {constructor: toNat value}, name of the toNat function)
 ENUMS = {
@@ -102,7 +150,8 @@ LEAN_KEYWORDS = {"end", "at", "from", "do", "then", "else", "if", "fun", "let", 
                  "mutual", "opaque", "noncomputable", "true", "false", "undef", "norm2", "K", "Pt", "seq", "row",
                  "at2", "colPt", "minval", "maxval", "psub", "padd", "cross", "dot2", "dot", "absK", "minK", "maxK",
                  "subRow", "addRow", "q", "vecOfPt", "set2", "anyB", "allB", "colRange", "matAdd", "matSub", "matScale", "matAbs", "ofInt", "ncols", "scaleRow",
-                 "st", "r", "getP", "rowsOf"}
+                 "st", "r", "getP", "rowsOf", "secRow", "setSec", "mulRow", "acc", "setColRange", "pscale", "ptOf"}
+LEAN_KEYWORDS |= {"j%d" % k for k in range(1, 40)}
 
 
 class Problem(Exception):
@@ -408,8 +457,35 @@ class Parser:
             k, v = self.peek()
             if v in (",", ")"):
                 return ("slice", e, None)
-            return ("slice", e, self.expr())
+            hi = self.expr()
+            if self.accept(":"):
+                return ("slice", e, hi, self.expr())     # lo:hi:stride
+            return ("slice", e, hi)
         return e
+
+
+def canon(e):
+    """canonical text of an integer expression (extents are compared textually)"""
+    if e is None:
+        return ""
+    k = e[0]
+    if k == "num":
+        return str(int(e[1])) if not e[2] else str(e[1])
+    if k == "name":
+        return e[1].lower()
+    if k == "paren":
+        return canon(e[1])
+    if k == "un":
+        return "(-%s)" % canon(e[2])
+    if k == "bin":
+        return "(%s%s%s)" % (canon(e[2]), e[1], canon(e[3]))
+    if k == "ref":
+        return "%s(%s)" % (e[1].lower(), ",".join(canon(a) for a in e[2]))
+    if k == "slice":
+        return ":".join(canon(x) for x in e[1:])
+    if k == "arr":
+        return "[%s]" % ",".join(canon(x) for x in e[1])
+    return "?"
 
 
 def parse_expr(text):
@@ -583,6 +659,27 @@ def parse_statements(lines):
                     raise Problem("trailing tokens in call argument: %r" % line)
                 asts.append(e)
             return ("call", m.group(1), asts, line)
+        m = re.match(r"forall\s*\(\s*(\w+)\s*=\s*(.*)$", line, re.I)
+        if m:
+            i0 = low.index("(")
+            j0 = match_paren(line, i0)
+            head = line[i0 + 1:j0 - 1]
+            mm = re.match(r"\s*(\w+)\s*=\s*(.*)$", head)
+            if not mm or len(split_top(head)) != 1:
+                raise Problem("forall header not supported (one index, no mask): %r" % line)
+            bounds = split_top(mm.group(2), ":")
+            if len(bounds) != 2:
+                raise Problem("forall bounds not supported: %r" % line)
+            rest = line[j0:].strip()
+            if rest:
+                body = [statement(rest, rest.lower())]
+            else:
+                body = block([r"end\s*forall\b"])
+                pos[0] += 1
+            for b in body:
+                if b[0] != "assign":
+                    raise Problem("only assignments are supported inside forall: %r" % line)
+            return ("forall", mm.group(1), parse_expr(bounds[0]), parse_expr(bounds[1]), body, line)
         m = re.match(r"do\s+(\w+)\s*=\s*(.*)$", line, re.I)
         if m and not re.match(r"do\s+while\b", low):
             parts = split_top(m.group(2))
@@ -637,6 +734,8 @@ class Ty:
                 return "List Bool"
         if self.base.startswith("enum:") and not self.shape:
             return ENUMS[self.base[5:]][0]
+        if self.base == "int" and not self.shape:
+            return "Int"
         raise Problem("no Lean type for %s%r" % (self.base, self.shape))
 
     def __repr__(self):
@@ -761,6 +860,11 @@ class Routine:
         self.body = None        # Lean tree
         self.src = []
         self.lean_name = name
+        self.orig_args = []     # dummy names before axis reduction
+        self.reduced = []       # lower names of the extent dummies whose axes are reduced away
+        self.unit = False       # literal-1 axes dropped as well
+        self.opaque = False     # interface only (no definition); callers take it as a function argument
+        self.externals = []     # opaque routines this routine (transitively) calls
 
 
 class Translator:
@@ -814,7 +918,8 @@ class Translator:
         raise Problem("constant expression not supported")
 
     # ------------------------------------------------------------------ one routine
-    def translate(self, mod, name, lines):
+    def translate(self, mod, name, lines, opts=None):
+        opts = opts or {}
         r = Routine(mod, name)
         hdr, body = find_procedure(lines, name)
         r.kind = hdr.group("kind").lower()
@@ -868,6 +973,9 @@ class Translator:
         for low, v in r.vars.items():
             if v["intent"] and low not in [a.lower() for a in r.args]:
                 raise Problem("%s has an intent but is not a dummy argument" % v["name"])
+        r.orig_args = list(r.args)
+        if opts.get("reduce") or opts.get("unit"):
+            stmts = self.reduce_axes(r, stmts, opts)
         # shapes; integer intent(in) dummies used as extents are dropped from the signature
         for low, v in r.vars.items():
             shape = []
@@ -879,25 +987,26 @@ class Translator:
                     el = ext.lower()
                     if el not in r.vars or r.vars[el]["base"] != "int" or r.vars[el]["intent"] != "in" or r.vars[el]["shape_txt"]:
                         raise Problem("extent %s of %s is not an integer intent(in) dummy" % (ext, v["name"]))
-                    if v["intent"] == "out":
-                        raise Problem("intent(out) array %s with a dummy extent not supported" % v["name"])
                     shape.append(el)
                     if v["intent"] == "in":
                         r.extent_dummies.setdefault(el, (low, axis, len(v["shape_txt"])))
                         r.extent_uses.setdefault(el, []).append((low, axis))
-                elif v["intent"] is None:
-                    shape.append("(" + ext.lower() + ")")       # a local (automatic) array: only the rank matters
+                elif v["intent"] in (None, "out"):
+                    # a local (automatic) array or an output: any integer expression in extents / literals
+                    shape.append(canon(parse_expr(ext)))
                 else:
                     raise Problem("extent %r of %s not supported (literal or dummy name only)" % (ext, v["name"]))
             if len(shape) > 2:
                 raise Problem("rank %d array %s not supported" % (len(shape), v["name"]))
             v["shape"] = tuple(shape)
+            v["shape_ast"] = [parse_expr(e) for e in v["shape_txt"]]
         for el in list(r.extent_dummies):
             pass
         for low, v in r.vars.items():
             if v["base"] == "int" and v["intent"] == "in" and not v["shape"] and low not in r.extent_dummies:
                 # an integer input that is not the extent of an intent(in) array
-                raise Problem("integer input %s is not the extent of an intent(in) array" % v["name"])
+                if not (opts.get("reduce") or opts.get("unit") or opts.get("ints")):
+                    raise Problem("integer input %s is not the extent of an intent(in) array" % v["name"])
         # enum typed integer outputs / locals: every assignment is a Family_NAME parameter
         self.assign_enum_types(r, stmts)
         for low, v in r.vars.items():
@@ -926,10 +1035,184 @@ class Translator:
             raise Problem("no output")
         for o in r.outs + r.ins:
             r.vars[o]["ty"].lean()   # must have a Lean type
+        if opts.get("opaque"):
+            # declared limitation: only the interface is read; callers receive the routine as an explicit function argument
+            r.opaque = True
+            r.body = None
+            return r
         ctx = Ctx(self, r)
         r.body = ctx.block(stmts, 0, State(set(r.ins)), ctx.finish)
         r.uses_undef, r.uses_norm2 = ctx.uses_undef, ctx.uses_norm2
+        r.externals = ctx.externals
         return r
+
+    # ------------------------------------------------------------------ axis reduction
+    def reduce_axes(self, r, stmts, opts):
+        """UNIFORM AXES.  `opts["reduce"]` names integer intent(in) extent dummies (`dimension_`, `num_vals`); an axis
+        declared with such an extent (and, with `opts["unit"]`, an axis of literal extent 1) is *uniform* if every
+        reference to the array has there `:` or the index of an enclosing `forall (v = 1:<extent>)` (resp. `1`), and the
+        extent is used nowhere else.  The routine then acts independently and identically on every index of that axis;
+        the translation is its action on ONE index: the axis is removed from every declaration and reference, the
+        `forall` over it is replaced by its body, the extent dummy disappears.  Anything else is a Problem."""
+        red = [x.lower() for x in opts.get("reduce", [])]
+        unit = bool(opts.get("unit"))
+        for x in red:
+            if x not in r.vars or r.vars[x]["base"] != "int" or r.vars[x]["intent"] != "in" or r.vars[x]["shape_txt"]:
+                raise Problem("axis reduction: %s is not an integer intent(in) scalar dummy" % x)
+        r.reduced, r.unit = red, unit
+        for low, v in r.vars.items():
+            exts = [e.strip().lower() for e in v["shape_txt"]]
+            v["mask"] = [(e in red) or (unit and e == "1") for e in exts]
+            v["orig_exts"] = exts
+            v["shape_txt"] = [e for e, m in zip(v["shape_txt"], v["mask"]) if not m]
+        r.args = [a for a in r.args if a.lower() not in red]
+        out = self.rw_stmts(r, stmts, {})
+
+        def names(e, acc):
+            if isinstance(e, tuple):
+                if e and e[0] == "name":
+                    acc.add(e[1].lower())
+                for x in e[1:]:
+                    names(x, acc)
+            elif isinstance(e, list):
+                for x in e:
+                    names(x, acc)
+        acc = set()
+        names(out, acc)
+        for low, v in r.vars.items():
+            for e in v["shape_txt"]:
+                names(parse_expr(e), acc)
+        for x in red:
+            if x in acc:
+                raise Problem("axis reduction: %s is used other than as the extent of a uniform axis" % r.vars[x]["name"])
+            del r.vars[x]
+        return out
+
+    def rw_ref(self, r, name, args, fv):
+        v = r.vars[name.lower()]
+        mask = v.get("mask", [False] * len(args))
+        if len(args) != len(mask):
+            raise Problem("wrong number of subscripts for %s" % name)
+        new = []
+        for a, m, ext in zip(args, mask, v["orig_exts"] if "orig_exts" in v else [None] * len(args)):
+            if not m:
+                new.append(self.rw_expr(r, a, fv))
+                continue
+            if a == ("slice", None, None):
+                continue
+            if a[0] == "name" and fv.get(a[1].lower()) == ext:
+                continue
+            if ext == "1" and a[0] == "num" and a[1] == 1 and not a[2]:
+                continue
+            raise Problem("axis reduction: subscript of the uniform axis (%s) of %s is neither `:` nor the forall index" % (ext, name))
+        if not new:
+            return ("name", name)
+        if all(x == ("slice", None, None) for x in new):
+            return ("name", name)
+        return ("ref", name, new)
+
+    def rw_expr(self, r, e, fv):
+        k = e[0]
+        if k == "name":
+            if e[1].lower() in fv:
+                raise Problem("axis reduction: forall index %s is used as a value" % e[1])
+            return e
+        if k in ("num", "log"):
+            return e
+        if k == "paren":
+            return ("paren", self.rw_expr(r, e[1], fv))
+        if k == "un":
+            return ("un", e[1], self.rw_expr(r, e[2], fv))
+        if k == "bin":
+            return ("bin", e[1], self.rw_expr(r, e[2], fv), self.rw_expr(r, e[3], fv))
+        if k == "arr":
+            return ("arr", [self.rw_expr(r, x, fv) for x in e[1]])
+        if k == "slice":
+            return tuple(["slice"] + [None if x is None else self.rw_expr(r, x, fv) for x in e[1:]])
+        if k == "ref":
+            if e[1].lower() in r.vars:
+                return self.rw_ref(r, e[1], e[2], fv)
+            low = e[1].lower()
+            if low in self.routines:
+                return ("ref", e[1], self.rw_call_args(r, self.routines[low], e[2], fv))
+            return ("ref", e[1], [self.rw_expr(r, a, fv) for a in e[2]])
+        raise Problem("internal: rw_expr " + k)
+
+    def rw_call_args(self, r, cal, actuals, fv, lifts=None):
+        if lifts is None:
+            lifts = []
+            own = True
+        else:
+            own = False
+        if len(actuals) != len(cal.orig_args):
+            raise Problem("wrong number of arguments in a reference to %s" % cal.name)
+        out = []
+        for d, a in zip(cal.orig_args, actuals):
+            dl = d.lower()
+            if dl in cal.reduced:
+                ok = (a[0] == "name" and a[1].lower() in r.reduced) or (a[0] == "num" and a[1] == 1 and not a[2])
+                if not ok:
+                    # LIFTING: the caller keeps this axis; the call is the callee applied to every index of the axis
+                    # (a map over the rows).  Only for an extent that is the FIRST axis of every array carrying it.
+                    for xl, xv in cal.vars.items():
+                        ex = xv.get("orig_exts", [])
+                        if dl in ex and (ex.index(dl) != 0 or ex.count(dl) != 1):
+                            raise Problem("axis reduction: %s passes %s for the uniform extent %s of %s, which is not a "
+                                          "first axis there" % (r.name, canon(a), d, cal.name))
+                    lifts.append((dl, canon(a)))
+                continue
+            dv = cal.vars[dl]
+            if any(dv.get("mask", [])) and a[0] == "arr":
+                if all(dv["mask"]) and len(a[1]) == 1:
+                    out.append(self.rw_expr(r, a[1][0], fv))
+                    continue
+                raise Problem("array constructor passed to %s of %s" % (d, cal.name))
+            out.append(self.rw_expr(r, a, fv))
+        if own and lifts:
+            raise Problem("axis reduction: a function reference to %s would have to be lifted over an axis" % cal.name)
+        return out
+
+    def rw_stmts(self, r, stmts, fv):
+        out = []
+        for s in stmts:
+            k = s[0]
+            if k == "return":
+                out.append(s)
+            elif k == "assign":
+                lhs = s[1]
+                if lhs[0] == "name" and lhs[1].lower() in fv:
+                    raise Problem("assignment to a forall index")
+                nl = self.rw_ref(r, lhs[1], lhs[2], fv) if lhs[0] == "ref" else lhs
+                if lhs[1].lower() not in r.vars:
+                    raise Problem("assignment to undeclared %s" % lhs[1])
+                out.append(("assign", nl, self.rw_expr(r, s[2], fv), s[3]))
+            elif k == "if":
+                out.append(("if", [(self.rw_expr(r, c, fv), self.rw_stmts(r, b, fv)) for c, b in s[1]],
+                            None if s[2] is None else self.rw_stmts(r, s[2], fv), s[3]))
+            elif k == "do":
+                out.append(("do", s[1], self.rw_expr(r, s[2], fv), self.rw_expr(r, s[3], fv),
+                            None if s[4] is None else self.rw_expr(r, s[4], fv), self.rw_stmts(r, s[5], fv), s[6]))
+            elif k == "forall":
+                _, var, lo, hi, body, text = s
+                if hi[0] == "name" and hi[1].lower() in r.reduced:
+                    if not (lo[0] == "num" and lo[1] == 1):
+                        raise Problem("axis reduction: forall over a uniform axis must start at 1: %r" % text)
+                    fv2 = dict(fv)
+                    fv2[var.lower()] = hi[1].lower()
+                    out += self.rw_stmts(r, body, fv2)
+                else:
+                    out.append(("forall", var, self.rw_expr(r, lo, fv), self.rw_expr(r, hi, fv), self.rw_stmts(r, body, fv), text))
+            elif k == "call":
+                low = s[1].lower()
+                if low in self.routines:
+                    lifts = []
+                    args = self.rw_call_args(r, self.routines[low], s[2], fv, lifts)
+                    out.append(("call", s[1], args, s[3], lifts))
+                else:
+                    out.append(("call", s[1], [self.rw_expr(r, a, fv) for a in s[2]], s[3]))
+            else:
+                raise Problem("internal: rw_stmts " + k)
+        return out
 
     def assign_enum_types(self, r, stmts):
         targets = {}
@@ -986,6 +1269,7 @@ class Ctx:
         self.uses_norm2 = False
         self.ncall = 0
         self.nloop = 0
+        self.externals = []
         self.on_return = self.default_return
 
     # ------------------------------------------------------------------ trees
@@ -1020,7 +1304,7 @@ class Ctx:
     def read_var(self, low, st, for_return=False):
         v = self.r.vars[low]
         if low in st.loops:
-            kind, n = st.loops[low]
+            kind, n = st.loops[low][0], st.loops[low][1]
             if kind == "const":
                 return V(Ty("int"), str(n), const=Fr(n), lb=n)
             return V(Ty("int"), v["lean"], lb=n)
@@ -1055,9 +1339,64 @@ class Ctx:
             return self.if_stmt(s[1], s[2], 0, st, rest)
         if s[0] == "do":
             return self.do_stmt(s, st, rest)
+        if s[0] == "forall":
+            return self.forall_stmt(s, st, rest)
         raise Problem("internal: statement " + s[0])
 
-    def if_stmt(self, branches, else_body, j, st, rest):
+    def if_joined(self, branches, else_body, st, rest):
+        """inside a fold-translated loop: an `if` construct without `return` is translated as
+           `let (modified variables) := if c then (...) else (...)` followed ONCE by the continuation (no duplication).
+           Returns None if the construct does not qualify."""
+        if not any(v[0] == "var" for v in st.loops.values()):
+            return None
+        acc, rets = set(), []
+        per = []
+        for _, b in branches:
+            a1 = set()
+            self.assigned_in(b, a1, rets)
+            per.append(a1)
+            acc |= a1
+        if else_body is not None:
+            a1 = set()
+            self.assigned_in(else_body, a1, rets)
+            per.append(a1)
+            acc |= a1
+        else:
+            per.append(set())
+        if rets or not acc:
+            return None
+        mods = [m for m in self.r.vars if m in acc]
+        for m in mods:
+            if not (m in st.defined or all(m in a1 for a1 in per)) or m in st.poison:
+                return None          # not defined on every path after the construct: keep the duplicating translation
+        def tup(st3):
+            items = [self.read_var(m, st3).s for m in mods]
+            return items[0] if len(items) == 1 else "(" + ", ".join(items) + ")"
+        saved = self.on_return
+        def no_return(st3, value=None):
+            raise Problem("internal: return inside a joined if")
+        self.on_return = no_return
+        try:
+            tree = self.if_stmt(branches, else_body, 0, st, lambda st3: ("ret", tup(st3)), joined=True)
+        finally:
+            self.on_return = saved
+        st2 = st.copy()
+        for m in mods:
+            st2.assigned(m)
+        self.njoin = getattr(self, "njoin", 0) + 1
+        after = rest(st2)
+        if len(mods) == 1:
+            return ("letblock", self.r.vars[mods[0]]["lean"], tree, after)
+        tmp = "j%d" % self.njoin
+        for k, m in reversed(list(enumerate(mods))):
+            after = ("let", self.r.vars[m]["lean"], self.proj(tmp, k, len(mods)), after)
+        return ("letblock", tmp, tree, after)
+
+    def if_stmt(self, branches, else_body, j, st, rest, joined=False):
+        if j == 0 and not joined:
+            t = self.if_joined(branches, else_body, st, rest)
+            if t is not None:
+                return t
         if j >= len(branches):
             if else_body is None:
                 return rest(st)
@@ -1068,7 +1407,7 @@ class Ctx:
             raise Problem("if condition is not a logical scalar")
         ctext, _ = render_prop(c.logic)
         then = self.block(body, 0, st.copy(), rest)
-        els = self.if_stmt(branches, else_body, j + 1, st.copy(), rest)
+        els = self.if_stmt(branches, else_body, j + 1, st.copy(), rest, joined=True)
         return ("ite", ctext, then, els)
 
     def do_stmt(self, s, st, rest):
@@ -1081,8 +1420,16 @@ class Ctx:
         if low in self.r.extent_dummies or self.r.vars[low]["intent"]:
             raise Problem("do variable %s is a dummy argument" % var)
         try:
-            lo_v = self.tr.eval_const(lo, {})
             st_v = self.tr.eval_const(step, {}) if step is not None else Fr(1)
+        except Problem:
+            raise Problem("do loop whose step is not a literal: %r" % text)
+        if st_v == -1:
+            try:
+                self.tr.eval_const(lo, {})
+            except Problem:
+                return self.do_desc(s, st, rest)
+        try:
+            lo_v = self.tr.eval_const(lo, {})
         except Problem:
             raise Problem("do loop whose lower bound / step is not a literal: %r" % text)
         if st_v == 0 or any(x.denominator != 1 for x in (lo_v, st_v)):
@@ -1109,6 +1456,11 @@ class Ctx:
             return run(0, st)
         return self.do_fold(low, int(lo_v), st_v, hi, body, text, st, rest)
 
+    def do_desc(self, s, st, rest):
+        """`do i = hi, lo, -1` with a literal `lo >= 1`: the fold over the reversed range"""
+        _, var, first, last, step, body, text = s
+        return self.do_fold(var.lower(), None, Fr(-1), None, body, text, st, rest, desc=(first, last))
+
     # -- a loop `do i = <literal lo>, <integer expression>`: a left fold over `List.range' lo (hi + 1 - lo)`
     def assigned_in(self, stmts, acc, rets):
         for s in stmts:
@@ -1130,6 +1482,8 @@ class Ctx:
                     self.assigned_in(s[2], acc, rets)
             elif s[0] == "do":
                 self.assigned_in(s[5], acc, rets)
+            elif s[0] == "forall":
+                self.assigned_in(s[4], acc, rets)
             elif s[0] == "return":
                 rets.append(True)
 
@@ -1139,11 +1493,20 @@ class Ctx:
             return base
         return base + "".join([".2"] * k) + (".1" if k < n - 1 else "")
 
-    def do_fold(self, low, lo_v, st_v, hi, body, text, st, rest):
-        if st_v != 1:
+    def do_fold(self, low, lo_v, st_v, hi, body, text, st, rest, desc=None):
+        if desc is not None:
+            first, last = desc
+            try:
+                lo_c = self.tr.eval_const(last, {})
+            except Problem:
+                raise Problem("descending do loop whose final value is not a literal: %r" % text)
+            if lo_c.denominator != 1 or lo_c < 0:
+                raise Problem("descending do loop with final value < 0: %r" % text)
+            lo_v, hi = int(lo_c), first
+        elif st_v != 1:
             raise Problem("do loop with a step other than 1 and a non-literal bound: %r" % text)
-        if lo_v < 1:
-            raise Problem("do loop with lower bound < 1 and a non-literal upper bound: %r" % text)
+        if lo_v < 0:
+            raise Problem("do loop with lower bound < 0 and a non-literal upper bound: %r" % text)
         acc, rets = set(), []
         self.assigned_in(body, acc, rets)
         if low in acc:
@@ -1164,7 +1527,7 @@ class Ctx:
         while True:
             try:
                 return self.do_fold_with(low, lo_v, hi, body, text, st, rest, mods, [m for m in mods if m in carried],
-                                         has_ret, token)
+                                         has_ret, token, desc is not None)
             except PoisonRead as exc:
                 if exc.token is not token:
                     raise
@@ -1173,13 +1536,25 @@ class Ctx:
                 del self.tr.param_used[snap[4]:]
                 del self.tr.enum_used[snap[5]:]
 
-    def do_fold_with(self, low, lo_v, hi, body, text, st, rest, mods, carried, has_ret, token):
-        hi_val = self.int_expr(hi, st, text, trunc_ok=True)
+    def do_fold_with(self, low, lo_v, hi, body, text, st, rest, mods, carried, has_ret, token, rev=False):
+        try:
+            hi_val = self.int_expr(hi, st, text, trunc_ok=True)
+            count = "%s + 1 - %d" % (hi_val.at(P_ADD), lo_v)
+        except Problem:
+            if not self.is_int_ast(hi, st):
+                raise
+            z, _ = self.int_value(hi, st)
+            count = "Int.toNat (%s + 1 - %d)" % (z, lo_v)
         local = [m for m in mods if m not in carried]
         comps = []
         for m in carried:
             v = self.r.vars[m]
-            init = self.read_var(m, st).s if m in st.defined else self.undef_of(v["ty"], "loop-carried %s" % v["name"]).s
+            if m in st.defined:
+                init = self.read_var(m, st).s
+            elif v["ty"].base == "real" and v["ty"].kindshape() == ("list",):
+                init = self.list_base(m, st, text).at(P_APP)
+            else:
+                init = self.undef_of(v["ty"], "loop-carried %s" % v["name"]).s
             comps.append((m, v["lean"], v["ty"].lean(), init))
         if not comps and not has_ret:
             # nothing is carried and nothing is returned: the loop has no effect that is read afterwards
@@ -1204,7 +1579,7 @@ class Ctx:
         st_body.defined |= set(carried)
         for m in local:
             st_body.poison[m] = token
-        st_body.loops[low] = ("var", lo_v)
+        st_body.loops[low] = ("var", lo_v, hi)
         saved = self.on_return
 
         def loop_return(st3, value=None):
@@ -1233,9 +1608,79 @@ class Ctx:
         init = ", ".join((["none"] if has_ret else []) + [c[3] for c in comps])
         if n > 1:
             init = "(" + init + ")"
-        rng = "(List.range' %d (%s + 1 - %d))" % (lo_v, hi_val.at(P_ADD), lo_v)
+        rng = "(List.range' %d (%s))" % (lo_v, count)
+        if rev:
+            rng = "(List.reverse %s)" % rng
         head = "fun (st : %s) (%s : Nat) =>" % (" × ".join(types), ivar)
         return ("fold", lname, head, inner, init, rng, after)
+
+    def lin_form(self, e, st):
+        """affine form {atom: coeff, 1: const} of an integer expression over extents and do variables, or None"""
+        k = e[0]
+        if k == "paren":
+            return self.lin_form(e[1], st)
+        if k == "num" and not e[2]:
+            return {1: int(e[1])}
+        if k == "name":
+            low = e[1].lower()
+            if low in st.loops:
+                if st.loops[low][0] == "const":
+                    return {1: int(st.loops[low][1])}
+                return {low: 1}
+            if low in self.r.extent_dummies:
+                return {low: 1}
+            if low in self.tr.params and self.tr.params[low][1] == "int":
+                return {1: int(self.tr.params[low][2])}
+            return None
+        if k == "un" and e[1] == "neg":
+            f = self.lin_form(e[2], st)
+            return None if f is None else {a: -c for a, c in f.items()}
+        if k == "bin" and e[1] in ("+", "-"):
+            f, g = self.lin_form(e[2], st), self.lin_form(e[3], st)
+            if f is None or g is None:
+                return None
+            out = dict(f)
+            for a, c in g.items():
+                out[a] = out.get(a, 0) + (c if e[1] == "+" else -c)
+            return out
+        if k == "bin" and e[1] == "*":
+            f, g = self.lin_form(e[2], st), self.lin_form(e[3], st)
+            if f is None or g is None:
+                return None
+            if set(f) <= {1}:
+                return {a: c * f.get(1, 0) for a, c in g.items()}
+            if set(g) <= {1}:
+                return {a: c * g.get(1, 0) for a, c in f.items()}
+        return None
+
+    def lower_bound(self, e, st):
+        """a lower bound of the integer expression `e` from: extents >= 1, `lo <= i <= hi` for the do / forall variables"""
+        f = self.lin_form(e, st)
+        if f is None:
+            return None
+        for _ in range(16):
+            lv = [a for a in f if a != 1 and a in st.loops and f[a] != 0]
+            if not lv:
+                break
+            x = lv[0]
+            c = f.pop(x)
+            if c > 0:
+                sub = {1: int(st.loops[x][1])}
+            else:
+                hi = st.loops[x][2] if len(st.loops[x]) > 2 else None
+                sub = self.lin_form(hi, st) if hi is not None else None
+                if sub is None:
+                    return None
+            for a, d in sub.items():
+                f[a] = f.get(a, 0) + c * d
+        total = f.get(1, 0)
+        for a, c in f.items():
+            if a == 1 or c == 0:
+                continue
+            if a in st.loops or c < 0:
+                return None
+            total += c          # extents are >= 1
+        return total
 
     def int_expr(self, e, st, text, trunc_ok=False):
         """integer expression -> Nat-valued Lean text with a known lower bound (literals, extents, do variables,
@@ -1266,7 +1711,12 @@ class Ctx:
             if e[1] == "+":
                 return V(Ty("int"), "%s + %s" % (a.at(P_ADD - 1), b.at(P_ADD)), P_ADD, lb=a.lb + b.lb)
             if b.const is None:
-                raise Problem("subtraction of a non-literal integer in %r" % text)
+                # `a - b` with a non-literal `b`: exact as natural numbers if the bounds of the do variables / extents
+                # show that it cannot be negative
+                lbv = self.lower_bound(e, st)
+                if lbv is None or (lbv < 0 and not trunc_ok) or a.s is None or b.s is None:
+                    raise Problem("integer expression may be negative (or is not affine in extents / do variables) in %r" % text)
+                return V(Ty("int"), "%s - %s" % (a.at(P_ADD - 1), b.at(P_ADD)), P_ADD, lb=lbv)
             if a.lb - int(b.const) < 0 and not trunc_ok:
                 raise Problem("integer expression may be negative in %r" % text)
             return V(Ty("int"), "%s - %s" % (a.at(P_ADD - 1), b.at(P_ADD)), P_ADD, lb=a.lb - int(b.const))
@@ -1285,11 +1735,46 @@ class Ctx:
             raise Problem("assignment to do variable %s" % name)
         val = self.expr(rhs, st)
         ty = v["ty"]
+        if lhs[0] == "ref" and all(a == ("slice", None, None) for a in lhs[2]):
+            lhs = ("name", name)
+        if lhs[0] == "name" and ty == Ty("int"):
+            if val.ty != Ty("int") or val.z is None:
+                raise Problem("assignment %r: type %s where an integer is expected" % (text, val.ty))
+            st2 = st.copy()
+            st2.assigned(low)
+            return ("let", v["lean"], "(%s : Int)" % val.z if val.const is not None else val.z, rest(st2))
         if lhs[0] == "name":
+            if ty.base == "real" and ty.kindshape() == ("list",) and (val.ty == REAL or val.ty == Ty("int")):
+                # `v = scalar`: every element
+                if val.ty != REAL:
+                    val = self.int_to_real(val)
+                ext = self.extent_val(low, 0, st)
+                val = V(ty, "List.replicate %s %s" % (ext.at(P_APP), val.at(P_APP)), P_APP)
             val = self.coerce(val, ty, "assignment %r" % text)
             st2 = st.copy()
             st2.assigned(low)
             return ("let", v["lean"], val.s, rest(st2))
+        if ty.base == "real" and ty.kindshape() == ("list",):
+            return self.assign_list(low, lhs, val, st, rest, text)
+        if (ty.base == "real" and ty.kindshape() == ("mat",) and len(lhs[2]) == 2 and lhs[2][0] == ("slice", None, None)
+                and lhs[2][1][0] == "slice"):
+            # m(:, lo:hi) = matrix
+            sl = lhs[2][1]
+            if len(sl) > 3:
+                raise Problem("strided section on the left-hand side: %r" % text)
+            lo_v = self.int_expr(sl[1], st, text) if sl[1] is not None else V(Ty("int"), "1", const=Fr(1), lb=1)
+            if lo_v.lb < 1:
+                raise Problem("section of %s: lower bound may be < 1" % name)
+            hi_v = self.int_expr(sl[2], st, text, trunc_ok=True) if sl[2] is not None else self.extent_val(low, 1, st)
+            if not (val.ty.base == "real" and val.ty.kindshape() == ("mat",)):
+                raise Problem("assignment %r: type %s where a rank-2 array is expected" % (text, val.ty))
+            if low not in st.defined:
+                raise Problem("section assignment to unassigned %s: %r" % (name, text))
+            cur = self.read_var(low, st)
+            st2 = st.copy()
+            st2.assigned(low)
+            return ("let", v["lean"], "setColRange %s %s %s %s" % (cur.at(P_APP), lo_v.at(P_APP), hi_v.at(P_APP), val.at(P_APP)),
+                    rest(st2))
         # element assignment
         idx = [self.const_index(a, st, text) for a in lhs[2]]
         if len(idx) != len(ty.shape):
@@ -1314,6 +1799,126 @@ class Ctx:
         st2.assigned(low)
         return ("let", v["lean"], new, rest(st2))
 
+    def extent_val(self, low, axis, st):
+        """declared extent of axis `axis` of variable `low` as a Nat-valued V (a negative extent is an empty array)"""
+        v = self.r.vars[low]
+        ext = v["shape"][axis]
+        if isinstance(ext, int):
+            return V(Ty("int"), str(ext), const=Fr(ext), lb=ext)
+        return self.nat_of(v["shape_ast"][axis], st, "extent of %s" % v["name"])
+
+    def list_base(self, low, st, text):
+        """current value of the rank-1 array `low`; unassigned: every element `undef`"""
+        v = self.r.vars[low]
+        if low in st.defined or low in st.poison:
+            return self.read_var(low, st)
+        self.uses_undef = True
+        return V(v["ty"], "List.replicate %s undef" % self.extent_val(low, 0, st).at(P_APP), P_APP)
+
+    def slice_bounds(self, low, sl, st, text):
+        """(lo V, hi V, reversed?) of the section `sl` of the rank-1 array `low`"""
+        v = self.r.vars[low]
+        step = sl[3] if len(sl) > 3 else None
+        rev = False
+        lo, hi = sl[1], sl[2]
+        if step is not None:
+            if not (step[0] == "un" and step[1] == "neg" and step[2][0] == "num" and step[2][1] == 1):
+                raise Problem("section stride other than -1 not supported in %r" % text)
+            rev = True
+            lo, hi = hi, lo
+        if lo is None:
+            lo_v = V(Ty("int"), "1", const=Fr(1), lb=1)
+        else:
+            try:
+                lo_v = self.int_expr(lo, st, text)
+            except Problem:
+                if not self.is_int_ast(lo, st):
+                    raise
+                # involves integer variables: the section is assumed to start inside the array (a lower bound < 1 is out
+                # of bounds in Fortran)
+                z, _ = self.int_value(lo, st)
+                lo_v = V(Ty("int"), "Int.toNat (%s)" % z, P_APP, lb=1)
+        if lo_v.lb < 1:
+            raise Problem("section of %s: lower bound may be < 1" % v["name"])
+        hi_v = self.nat_of(hi, st, text) if hi is not None else self.extent_val(low, 0, st)
+        return lo_v, hi_v, rev
+
+    def assign_list(self, low, lhs, val, st, rest, text):
+        v = self.r.vars[low]
+        ty = v["ty"]
+        if len(lhs[2]) != 1:
+            raise Problem("wrong number of subscripts in %r" % text)
+        a = lhs[2][0]
+        cur = self.list_base(low, st, text)
+        if a[0] == "slice":
+            lo_v, hi_v, rev = self.slice_bounds(low, a, st, text)
+            if rev:
+                raise Problem("reversed section on the left-hand side: %r" % text)
+            if val.ty == REAL or val.ty == Ty("int"):
+                if val.ty != REAL:
+                    val = self.int_to_real(val)
+                val = V(ty, "List.replicate (%s + 1 - %s) %s" % (hi_v.at(P_ADD), lo_v.at(P_ADD), val.at(P_APP)), P_APP)
+            if not (val.ty.base == "real" and val.ty.kindshape() == ("list",)):
+                raise Problem("assignment %r: type %s where a rank-1 array is expected" % (text, val.ty))
+            new = "setSec %s %s %s %s" % (cur.at(P_APP), lo_v.at(P_APP), hi_v.at(P_APP), val.at(P_APP))
+        else:
+            if val.ty == Ty("int"):
+                val = self.int_to_real(val)
+            val = self.coerce(val, REAL, "assignment %r" % text)
+            i0, _ = self.index0(a, st, v["name"], ty.shape[0])
+            new = "List.set %s %s %s" % (cur.at(P_APP), i0, val.at(P_APP))
+        st2 = st.copy()
+        st2.assigned(low)
+        return ("let", v["lean"], new, rest(st2))
+
+    # -- forall (i = lo:hi) a(idx(i)) = rhs(i): every right-hand side is evaluated with the OLD array
+    def forall_stmt(self, s, st, rest):
+        _, var, lo, hi, body, text = s
+        low = var.lower()
+        if low not in self.r.vars or self.r.vars[low]["base"] != "int" or self.r.vars[low]["shape"]:
+            raise Problem("forall index %s is not a declared integer scalar" % var)
+        if low in st.loops:
+            raise Problem("nested use of index %s" % var)
+        lo_v = self.int_expr(lo, st, text)
+        if lo_v.const is None or lo_v.const < 1:
+            raise Problem("forall lower bound must be a literal >= 1: %r" % text)
+        hi_v = self.int_expr(hi, st, text, trunc_ok=True)
+        ivar = self.r.vars[low]["lean"]
+
+        def one(j, st2):
+            if j >= len(body):
+                st3 = st2.copy()
+                st3.loops.pop(low, None)
+                return rest(st3)
+            _, lhs, rhs, t2 = body[j]
+            tl = lhs[1].lower()
+            if lhs[0] != "ref" or tl not in self.r.vars or len(lhs[2]) != 1 or lhs[2][0][0] == "slice":
+                raise Problem("forall assignment target not supported: %r" % t2)
+            tv = self.r.vars[tl]
+            if not (tv["ty"].base == "real" and tv["ty"].kindshape() == ("list",)) or tv["intent"] == "in":
+                raise Problem("forall assignment target %s is not an assignable rank-1 real array: %r" % (tv["name"], t2))
+            st_in = st2.copy()
+            st_in.loops[low] = ("var", int(lo_v.const), hi)
+            val = self.expr(rhs, st_in)
+            if val.ty == Ty("int"):
+                val = self.int_to_real(val)
+            val = self.coerce(val, REAL, "assignment %r" % t2)
+            idx = lhs[2][0]
+            whole = (idx[0] == "name" and idx[1].lower() == low and lo_v.const == 1
+                     and canon(hi) == (str(tv["shape"][0]) if isinstance(tv["shape"][0], int) else tv["shape"][0]))
+            rng = "(List.range' %d (%s + 1 - %d))" % (int(lo_v.const), hi_v.at(P_ADD), int(lo_v.const))
+            if whole:
+                new = "List.map (fun (%s : Nat) => %s) %s" % (ivar, val.s, rng)
+            else:
+                i0, _ = self.index0(idx, st_in, tv["name"], tv["shape"][0])
+                cur = self.list_base(tl, st2, t2)
+                new = "List.foldl (fun (acc : List K) (%s : Nat) => List.set acc %s %s) %s %s" % (
+                    ivar, i0, val.at(P_APP), cur.at(P_APP), rng)
+            st3 = st2.copy()
+            st3.assigned(tl)
+            return ("let", tv["lean"], new, one(j + 1, st3))
+        return one(0, st)
+
     def const_index(self, a, st, text):
         if a[0] == "slice":
             raise Problem("section on the left-hand side not supported: %r" % text)
@@ -1326,8 +1931,12 @@ class Ctx:
         return int(x)
 
     def coerce(self, val, ty, what):
+        if ty == Ty("int") and val.ty == Ty("int") and val.z is not None:
+            return V(ty, val.z, P_ATOM if re.fullmatch(r"\w+|\(.*\)", val.z) else P_ADD - 1, z=val.z)
         if val.ty == ty:
             return val
+        if ty == REAL and val.ty == Ty("int") and val.z is not None:
+            return self.int_to_real(val)
         if ty.base.startswith("enum:") and val.ty.base == ty.base:
             return val
         raise Problem("%s: type %s where %s is expected" % (what, val.ty, ty))
@@ -1341,20 +1950,41 @@ class Ctx:
             raise Problem("calls %s, which is not translated" % name)
         raise Problem("calls %s, which is not a listed routine" % name)
 
-    def bind_actuals(self, cal, actuals, st, text):
-        """-> (Lean argument texts for the inputs, list of (out dummy low, actual ast))"""
+    @staticmethod
+    def lifted_ty(ty):
+        """the type of an array with one more (first) axis"""
+        if ty == REAL:
+            return Ty("real", ("(lifted)",))
+        if ty.base == "real" and ty.kindshape() in (("list",), ("pt",)):
+            return Ty("real", ("(lifted)", "(lifted)"))
+        raise Problem("no lifted type for %s" % ty)
+
+    def bind_actuals(self, cal, actuals, st, text, lift=None):
+        """-> (Lean argument texts for the inputs, list of (out dummy low, actual ast)); `lift`: the uniform extent of the
+           callee over which the call is mapped - the arrays carrying it are passed with that axis"""
         if len(actuals) != len(cal.args):
             raise Problem("wrong number of arguments in %r" % text)
         ins, outs = {}, []
         by_dummy = {d.lower(): a for d, a in zip(cal.args, actuals)}
+        self.mapped = []
         for d, a in by_dummy.items():
             dv = cal.vars[d]
             if d in cal.extent_dummies:
                 continue
+            carries = lift is not None and lift in dv.get("orig_exts", [])
             if dv["intent"] == "in":
                 val = self.expr(a, st)
-                val = self.coerce(val, dv["ty"], "argument %s of %s" % (dv["name"], cal.name))
-                ins[d] = val
+                if carries:
+                    want = self.lifted_ty(dv["ty"])
+                    if val.ty.base == "real" and val.ty.kindshape() == ("pt",) and want.kindshape() == ("list",):
+                        val = self.as_list(val)
+                    if not (val.ty.base == "real" and val.ty.kindshape() == want.kindshape()):
+                        raise Problem("argument %s of %s (mapped over %s): type %s" % (dv["name"], cal.name, lift, val.ty))
+                    self.mapped.append((d, val))
+                    ins[d] = V(dv["ty"], "%s_" % dv["lean"].rstrip("_"), P_ATOM)
+                else:
+                    val = self.coerce(val, dv["ty"], "argument %s of %s" % (dv["name"], cal.name))
+                    ins[d] = val
             else:
                 outs.append((d, a))
         # extents: the actual extent must be the declared extent of the actual array (textually), or a literal
@@ -1362,8 +1992,16 @@ class Ctx:
             a = by_dummy[d]
             got = self.extent_text(a)
             for arr, axis in cal.extent_uses[d]:
-                want = self.extent_of(by_dummy[arr], axis, st, text)
+                shift = 1 if (lift is not None and lift in cal.vars[arr].get("orig_exts", [])) else 0
+                want = self.extent_of(by_dummy[arr], axis + shift, st, text)
                 if want is None or got != want:
+                    # explicit-shape dummy: the callee sees the first `extent` elements of the actual (sequence association;
+                    # a shorter actual is outside the standard)
+                    dv = cal.vars[arr]
+                    if shift == 0 and arr in ins and dv["ty"].base == "real" and dv["ty"].kindshape() == ("list",) and axis == 0:
+                        n = self.nat_of(a, st, text)
+                        ins[arr] = V(dv["ty"], "List.take %s %s" % (n.at(P_APP), ins[arr].at(P_APP)), P_APP)
+                        continue
                     raise Problem("extent argument %s of %s is %s but the array argument %s has extent %s in %r"
                                   % (cal.vars[d]["name"], cal.name, got, cal.vars[arr]["name"], want, text))
         return [ins[d] for d in cal.ins], outs
@@ -1373,7 +2011,7 @@ class Ctx:
             return int(a[1])
         if a[0] == "name":
             return a[1].lower()
-        return "<expression>"
+        return canon(a)
 
     def extent_of(self, a, axis, st, text):
         """declared extent (int or lower-case name) of axis `axis` of the actual argument `a`"""
@@ -1386,15 +2024,23 @@ class Ctx:
             # a section: m(:, j) / m(i, :) has the extent of the sliced axis
             sh = self.r.vars[a[1].lower()]["shape"]
             kept = [n for n, x in enumerate(a[2]) if x[0] == "slice"]
-            if all(a[2][n] == ("slice", None, None) for n in kept) and axis < len(kept):
-                return sh[kept[axis]]
+            if axis < len(kept):
+                sl = a[2][kept[axis]]
+                if sl == ("slice", None, None):
+                    return sh[kept[axis]]
+                if len(sl) == 3 and sl[1] is None and sl[2] is not None:        # `:hi` has `hi` elements
+                    e = sl[2]
+                    return int(e[1]) if (e[0] == "num" and not e[2]) else (e[1].lower() if e[0] == "name" else canon(e))
         return None
 
     def call_stmt(self, s, st, rest):
-        _, name, actuals, text = s
+        _, name, actuals, text = s[:4]
+        lifts = s[4] if len(s) > 4 else []
         cal = self.callee(name)
         if cal.kind != "subroutine":
             raise Problem("call of a function: %r" % text)
+        if lifts:
+            return self.call_lifted(cal, actuals, lifts, st, rest, text)
         ins, outs = self.bind_actuals(cal, actuals, st, text)
         app = self.apply(cal, ins)
         # outputs must be whole variables of this routine
@@ -1429,8 +2075,48 @@ class Ctx:
             tree_rest = ("let", nm, proj, tree_rest)
         return ("let", tmp, app, tree_rest)
 
+    def call_lifted(self, cal, actuals, lifts, st, rest, text):
+        """`call f(.., m, ..)` where `f` is translated for ONE index of an axis that the caller keeps: a map over that axis"""
+        if len(lifts) != 1:
+            raise Problem("call mapped over more than one axis: %r" % text)
+        lift = lifts[0][0]
+        ins, outs = self.bind_actuals(cal, actuals, st, text, lift=lift)
+        mapped = list(self.mapped)
+        if len(outs) != 1 or lift not in cal.vars[outs[0][0]].get("orig_exts", []):
+            raise Problem("call mapped over an axis needs exactly one output, carrying that axis: %r" % text)
+        d, a = outs[0]
+        if a[0] != "name" or a[1].lower() not in self.r.vars:
+            raise Problem("output argument of a mapped call is not a whole variable in %r" % text)
+        low = a[1].lower()
+        v = self.r.vars[low]
+        if v["intent"] == "in" or low in self.r.extent_dummies or low in st.loops:
+            raise Problem("output argument bound to intent(in) %s in %r" % (v["name"], text))
+        app = self.apply(cal, ins)
+        names = [i.s for dd, _ in mapped for i in [ins[[x for x in cal.ins].index(dd)]]]
+        if len(mapped) == 1:
+            txt = "List.map (fun %s => %s) %s" % (names[0], app, mapped[0][1].at(P_APP))
+        elif len(mapped) == 2:
+            txt = "List.zipWith (fun %s %s => %s) %s %s" % (names[0], names[1], app, mapped[0][1].at(P_APP), mapped[1][1].at(P_APP))
+        else:
+            raise Problem("call mapped over an axis with %d array inputs: %r" % (len(mapped), text))
+        want = self.lifted_ty(cal.vars[d]["ty"])
+        if v["ty"].base == "real" and v["ty"].kindshape() == ("pt",) and want.kindshape() == ("list",):
+            txt = "ptOf (%s)" % txt
+        elif not (v["ty"].base == "real" and v["ty"].kindshape() == want.kindshape()):
+            raise Problem("output argument %s of the mapped call: type %s in %r" % (v["name"], v["ty"], text))
+        st2 = st.copy()
+        st2.assigned(low)
+        return ("let", v["lean"], txt, rest(st2))
+
     def apply(self, cal, ins):
-        parts = [cal.lean_name]
+        if cal.opaque:
+            if cal not in self.externals:
+                self.externals.append(cal)
+            return " ".join([cal.lean_name + "_ext"] + [v.at(P_APP) for v in ins])
+        for x in cal.externals:
+            if x not in self.externals:
+                self.externals.append(x)
+        parts = [cal.lean_name] + [x.lean_name + "_ext" for x in cal.externals]
         if cal.uses_undef:
             self.uses_undef = True
             parts.append("undef")
@@ -1450,7 +2136,7 @@ class Ctx:
         if k == "name":
             low = e[1].lower()
             if low in self.r.vars:
-                return low in st.loops or low in self.r.extent_dummies
+                return low in st.loops or low in self.r.extent_dummies or self.is_int_var(low)
             if low in self.tr.params:
                 name, base, val, mod = self.tr.params[low]
                 return base == "int" and name.split("_", 1)[0] not in ENUMS
@@ -1460,6 +2146,11 @@ class Ctx:
         if k == "bin" and e[1] in ("+", "-", "*"):
             return self.is_int_ast(e[2], st) and self.is_int_ast(e[3], st)
         return False
+
+    def is_int_var(self, low):
+        """an integer scalar variable (input, output or local) that is neither an extent nor an enum"""
+        v = self.r.vars.get(low)
+        return (v is not None and v["ty"].base == "int" and not v["ty"].shape and low not in self.r.extent_dummies)
 
     def int_value(self, e, st):
         """Int-valued Lean text of an integer expression (exact: no truncation), with its precedence"""
@@ -1474,6 +2165,8 @@ class Ctx:
                 v = self.read_var(low, st)
                 if v.const is not None:
                     return str(int(v.const)), P_ATOM
+                if low not in st.loops and self.is_int_var(low):
+                    return v.s, P_ATOM                      # an Int-valued variable
                 return "((%s : Nat) : Int)" % v.s, P_ATOM
             return str(int(self.tr.params[low][2])), P_ATOM
         if k == "un":
@@ -1494,9 +2187,20 @@ class Ctx:
         except Problem:
             return V(Ty("int"), None, P_ATOM, z=z)
 
+    def nat_of(self, e, st, text, trunc_ok=True):
+        """Nat-valued V of an integer expression used as an upper bound / count: exact natural-number text when the
+           bounds show it cannot be negative, else `Int.toNat` of the exact Int expression (max(0, value))"""
+        try:
+            return self.int_expr(e, st, text, trunc_ok=trunc_ok)
+        except Problem:
+            z, _ = self.int_value(e, st)
+            return V(Ty("int"), "Int.toNat (%s)" % z, P_APP, lb=0)
+
     def int_to_real(self, x):
         if x.const is not None and x.const >= 0:
             return lean_real(x.const)
+        if x.s is not None and x.lb is not None and x.lb >= 0 and self.r.reduced:
+            return V(REAL, "((%s : Nat) : K)" % x.s, P_ATOM)     # exact as a natural number
         return V(REAL, "ofInt (%s)" % x.z, P_APP)
 
     def expr(self, e, st):
@@ -1607,11 +2311,22 @@ class Ctx:
         if op in ("*", "/"):
             if a.ty == REAL and b.ty == REAL:
                 return V(REAL, "%s %s %s" % (a.at(P_MUL - 1), op, b.at(P_MUL)), P_MUL)
+            islist = lambda x: x.ty.base == "real" and x.ty.kindshape() == ("list",)     # noqa: E731
+            if op == "*" and a.ty.base == "real" and a.ty.kindshape() == ("pt",) and b.ty == REAL:
+                return V(a.ty, "pscale %s %s" % (a.at(P_APP), b.at(P_APP)), P_APP)
+            if op == "*" and a.ty == REAL and islist(b):
+                return V(b.ty, "scaleRow %s %s" % (a.at(P_APP), b.at(P_APP)), P_APP)
+            if op == "*" and islist(a) and islist(b):
+                return V(a.ty, "mulRow %s %s" % (a.at(P_APP), b.at(P_APP)), P_APP)
             if op == "*" and a.ty == REAL and b.ty.base == "real" and b.ty.kindshape() == ("mat",):
                 return V(b.ty, "matScale %s %s" % (a.at(P_APP), b.at(P_APP)), P_APP)
             raise Problem("`%s` on %s and %s" % (op, a.ty, b.ty))
         if op == "**":
-            raise Problem("`**` outside constant expressions not supported")
+            if a.ty == REAL and b.ty == Ty("int") and b.const is not None and 2 <= b.const <= 4:
+                # `x ** n` with a small literal exponent: the repeated product, associated to the left
+                t = a.at(P_MUL)
+                return V(REAL, " * ".join([a.at(P_MUL - 1)] + [t] * (int(b.const) - 1)), P_MUL)
+            raise Problem("`**` outside constant expressions (or with an exponent other than the literals 2, 3, 4) not supported")
         raise Problem("operator %s" % op)
 
     def as_list(self, x):
@@ -1626,7 +2341,15 @@ class Ctx:
         try:
             n = self.const_index(a, st, text)
         except Problem:
-            v = self.int_expr(a, st, text)
+            try:
+                v = self.int_expr(a, st, text)
+            except Problem:
+                if not self.is_int_ast(a, st):
+                    raise
+                # a subscript that involves integer variables: the exact Int expression; a subscript < 1 is outside the
+                # array in Fortran, `Int.toNat` reads element 1 there
+                z, _ = self.int_value(a, st)
+                return "(Int.toNat (%s - 1))" % z, None
             if v.lb is None or v.lb < 1:
                 raise Problem("subscript may be < 1 in a reference to %s" % text)
             return "(%s - 1)" % v.at(P_ADD - 1), None
@@ -1639,12 +2362,20 @@ class Ctx:
         ty = v["ty"]
         if len(args) != len(ty.shape):
             raise Problem("wrong number of subscripts for %s" % v["name"])
+        if low in st.poison:
+            raise PoisonRead(low, st.poison[low])
         if low not in st.defined:
             raise Problem("element / section of unassigned %s" % v["name"])
         base = V(ty, v["lean"])
         ks = ty.kindshape()
         slices = [a[0] == "slice" for a in args]
         if any(slices):
+            if ks == ("list",):
+                lo_v, hi_v, rev = self.slice_bounds(low, args[0], st, v["name"])
+                txt = "secRow %s %s %s" % (base.s, lo_v.at(P_APP), hi_v.at(P_APP))
+                if rev:
+                    txt = "List.reverse (%s)" % txt
+                return V(Ty("real", ("(section)",)), txt, P_APP)
             if ks == ("mat",) and all(slices) and args[0] == ("slice", None, None):
                 # m(:, lo:hi): the columns lo..hi of every row
                 _, lo, hi = args[1]
@@ -1662,7 +2393,7 @@ class Ctx:
                     elif ext in self.r.extent_dummies:
                         hi_v = self.read_var(ext, st)
                     else:
-                        raise Problem("section of %s without upper bound: the extent is not a literal / dummy" % v["name"])
+                        hi_v = self.extent_val(low, 1, st)
                 return V(Ty("real", (ty.shape[0], "(section)")), "colRange %s %s %s" % (base.s, lo_v.at(P_APP), hi_v.at(P_APP)), P_APP)
             for a in args:
                 if a[0] == "slice" and a != ("slice", None, None):
@@ -1762,6 +2493,10 @@ def render_tree(t, ind):
             sub = render_tree(els, ind)
             return out + pad + "else " + sub[len(pad):]
         return out + pad + "else\n" + render_tree(els, ind + 1)
+    if t[0] == "letblock":
+        _, name, tree, after = t
+        body = render_tree(tree, ind + 2).rstrip("\n")
+        return pad + "let %s :=\n" % name + body + "\n" + render_tree(after, ind)
     if t[0] == "fold":
         _, lname, head, inner, init, rng, after = t
         body = render_tree(inner, ind + 2).rstrip("\n")
@@ -1814,6 +2549,22 @@ def matSub (a b : List (List K)) : List (List K) := List.zipWith subRow a b
 def matScale (c : K) (a : List (List K)) : List (List K) := a.map (scaleRow c)
 def matAbs (a : List (List K)) : List (List K) := a.map (List.map absK)
 
+/-- `v(lo:hi)` of a rank-1 array (1-based, inclusive; empty for `hi < lo`) -/
+def secRow (v : List K) (lo hi : Nat) : List K := (v.drop (lo - 1)).take (hi + 1 - lo)
+
+/-- `v(lo:hi) = w` -/
+def setSec (v : List K) (lo hi : Nat) (w : List K) : List K := v.take (lo - 1) ++ w.take (hi + 1 - lo) ++ v.drop hi
+
+/-- elementwise `a * b` on rank-1 arrays -/
+def mulRow (a b : List K) : List K := List.zipWith (· * ·) a b
+
+/-- `m(:, lo:hi) = w` on every row -/
+def setColRange (m : List (List K)) (lo hi : Nat) (w : List (List K)) : List (List K) :=
+  List.zipWith (fun r x => setSec r lo hi x) m w
+
+/-- `p * c` on a `v(2)` array -/
+def pscale (p : Pt K) (c : K) : Pt K := (p.1 * c, p.2 * c)
+
 /-- integer -> real conversion -/
 def ofInt (z : Int) : K := if z < 0 then -((z.natAbs : Nat) : K) else ((z.natAbs : Nat) : K)
 
@@ -1831,6 +2582,9 @@ def signature(r):
         parts.append("(undef : K)")
     if r.uses_norm2:
         parts.append("(norm2 : List K → K)")
+    for x in r.externals:
+        xt = " → ".join([x.vars[i]["ty"].lean() for i in x.ins] + [" × ".join(x.vars[o]["ty"].lean() for o in x.outs)])
+        parts.append("(%s_ext : %s)" % (x.lean_name, xt))
     for low in r.ins:
         v = r.vars[low]
         parts.append("(%s : %s)" % (v["lean"], v["ty"].lean()))
@@ -1839,9 +2593,9 @@ def signature(r):
 
 
 def emit(tr, done):
-    out = ["/- GENERATED by harness/translate_f90.py from the working tree's src/fortran/helpers.f90 and",
-           "   src/fortran/curve_intersection.f90 on every run; do not edit.  One definition per translated routine;",
-           "   Tables/SrcF90.lean proves each equal to the hand-written model. -/",
+    out = ["/- GENERATED by harness/translate_f90.py from the working tree's src/fortran/helpers.f90, curve_intersection.f90,",
+           "   curve.f90 and triangle.f90 on every run; do not edit.  One definition per translated routine;",
+           "   Tables/SrcF90.lean and Tables/SrcF90Kernels.lean prove each equal to the hand-written model. -/",
            "import BezierVerif.Model.Basic", "import BezierVerif.Model.Curve", "import BezierVerif.Model.Solve2x2",
            "import BezierVerif.Model.Helpers", "",
            "set_option linter.unusedVariables false", "",
@@ -1862,6 +2616,10 @@ def emit(tr, done):
             lean_ty, _, tonat = ENUMS[fam]
             out.append("/-- `%s = %d` -/\nexample : %s %s.%s = %d := rfl\n" % (name, val, tonat, lean_ty, ctor, val))
     for r in done:
+        if r.opaque:
+            out.append("/- `%s` (%s.f90): outside the translated subset; its callers take it as the explicit argument `%s_ext` -/\n"
+                       % (r.name, r.mod, r.lean_name))
+            continue
         sig, ret = signature(r)
         doc = "\n".join("    " + l.replace("/-", "/ -").replace("-/", "- /") for l in r.src)
         out.append("/-- `%s` (%s.f90)\n```fortran\n%s\n```\n-/" % (r.name, r.mod, doc))
@@ -1893,7 +2651,7 @@ def main(argv):
             return 2
     tr = Translator()
     lines = {}
-    for mod in ("helpers", "curve_intersection"):
+    for mod in MODULES:
         try:
             lines[mod] = module_lines(mod)
             tr.load_parameters(mod, lines[mod])
@@ -1901,13 +2659,15 @@ def main(argv):
             tr.problems.append("EXTRACT-PROBLEM srcf90: %s.f90: %s" % (mod, exc))
             lines[mod] = None
     done = []
-    for mod, name in ROUTINES:
+    for entry in ROUTINES:
+        mod, name = entry[0], entry[1]
+        opts = entry[2] if len(entry) > 2 else {}
         if lines[mod] is None:
             tr.failed[name.lower()] = "module unreadable"
             tr.problems.append("EXTRACT-PROBLEM srcf90: %s: module %s.f90 unreadable" % (name, mod))
             continue
         try:
-            r = tr.translate(mod, name, lines[mod])
+            r = tr.translate(mod, name, lines[mod], opts)
             tr.routines[name.lower()] = r
             done.append(r)
         except Problem as exc:
@@ -1930,7 +2690,9 @@ def main(argv):
         os.replace(out_path + ".tmp", out_path)
     for p in tr.problems:
         print(p)
-    print("srcf90: %d of %d routines translated (%s)" % (len(done), len(ROUTINES), "changed" if old != text else "unchanged"))
+    nop = sum(1 for r in done if r.opaque)
+    print("srcf90: %d of %d routines translated%s (%s)" % (len(done) - nop, len(ROUTINES) - nop,
+          " + %d interface-only" % nop if nop else "", "changed" if old != text else "unchanged"))
     return 0
 
 
